@@ -1660,4 +1660,499 @@ theorem parseHdrLine_shift_exact (pre t : Buf) (o : Nat) (h : Hdr) (hb : Option 
   simp only [shHL, Prod.mk.injEq] at this
   rw [this.1, this.2]
 
+/-! ### (3) the header list and ParseHeaders -/
+
+theorem shHls_cur (k : Nat) (hl : HdrLst) : (shHls k hl).cur = shHdr k hl.cur := by
+  unfold HdrLst.cur shHls
+  simp only [Array.size_map]
+  split
+  · rename_i h; simp [h]
+  · rfl
+
+theorem shHls_setCur (k : Nat) (hl : HdrLst) (g : Hdr) : shHls k (hl.setCur g) = (shHls k hl).setCur (shHdr k g) := by
+  unfold HdrLst.setCur shHls
+  simp only [Array.size_map]
+  split
+  · simp only [Array.set!_eq_setIfInBounds, Array.map_setIfInBounds]
+  · rfl
+
+theorem shHls_setHdr (k : Nat) (hl : HdrLst) (g : Hdr) : shHls k (hl.setHdr g) = (shHls k hl).setHdr (shHdr k g) := by
+  unfold HdrLst.setHdr
+  have h1 : (shHls k hl).h = hl.h.map (shHdr k) := rfl
+  rw [h1, Array.size_map, shHdr_type, Array.getElem?_map]
+  by_cases hc : (decide (g.type ≥ 1) && decide (g.type - 1 < hl.h.size)) = true
+  · rw [if_pos hc, if_pos hc]
+    cases hg : hl.h[g.type - 1]? with
+    | none => rfl
+    | some old =>
+      simp only [Option.map_some]
+      have hm : (shHdr k old).missing = old.missing := rfl
+      rw [hm]
+      split
+      · unfold shHls
+        simp only [Array.set!_eq_setIfInBounds, Array.map_setIfInBounds]
+      · rfl
+  · rw [if_neg hc, if_neg hc]
+
+theorem shHls_accept (k : Nat) (hl : HdrLst) (g : Hdr) : shHls k (hl.accept g) = (shHls k hl).accept (shHdr k g) := by
+  unfold HdrLst.accept
+  simp only
+  have e1 : ({ shHls k hl with pflags := ((shHls k hl).pflags ||| 1 <<< (shHdr k g).type) % 65536 } : HdrLst) =
+      shHls k { hl with pflags := (hl.pflags ||| 1 <<< g.type) % 65536 } := rfl
+  rw [e1, ← shHls_setHdr]
+  have e2 : ((shHls k hl).n < (shHls k hl).hdrs.size) = (hl.n < hl.hdrs.size) := by
+    show (hl.n < (hl.hdrs.map _).size) = _; rw [Array.size_map]
+  simp only [e2]
+  split <;> rfl
+
+/-- **a legitimate (header list, values) pair** for the shift theorem of ParseHeaders at offset `offs`: the
+    hypotheses of the panic-freedom theorem `parseHeaders_safe` plus `HlSh` for the header in progress -/
+structure HlsAll (t : Buf) (offs : Nat) (hl : HdrLst) (hb : Option PHdrVals) : Prop where
+  ok1 : hlsOK t hl
+  ok2 : hbOK t offs hb
+  pend : hlsPend hl hb
+  ho : offs ≤ t.size
+  safe : HlsSafe t offs hl hb
+  sh : HlSh t offs (hl.cur, hb)
+
+theorem HlsAll.line {t : Buf} {offs : Nat} {hl : HdrLst} {hb : Option PHdrVals} (h : HlsAll t offs hl hb) :
+    HlAll t offs (hl.cur, hb) :=
+  ⟨h.safe.cur, ⟨h.ho, hlsOK_cur h.ok1, h.ok2⟩, h.sh⟩
+
+/-- the values object returned by ParseHeaders: moved, exactly after a non-error verdict and up to the stale restart
+    offset after an error -/
+def smRelHb (k : Nat) (e : Err) (x y : Option PHdrVals) : Prop :=
+  x.map smHvObs = (y.map (shHv k)).map smHvObs ∧ (smExact e → x = y.map (shHv k))
+
+theorem smRelHL_split {k : Nat} {e : Err} {x y : HLσ} (h : smRelHL k e x y) :
+    x.1 = shHdr k y.1 ∧ smRelHb k e x.2 y.2 := by
+  obtain ⟨h1, h2⟩ := h
+  unfold smHLObs shHL at h1
+  simp only [Prod.mk.injEq] at h1
+  refine ⟨h1.1, h1.2, fun he => ?_⟩
+  have := h2 he
+  rw [this]
+  rfl
+
+theorem HlSh_newLine {t : Buf} {n : Nat} {g : Hdr} {v : Option PHdrVals} (h : HlSh t n (g, v)) (hf : g.state = .fin)
+    (hn : n ≤ t.size) : HlSh t n ({}, v) :=
+  ⟨fun hh => absurd rfl hh, (fun hh => by rcases hh with hh | hh <;> cases hh), fun hh => absurd rfl hh,
+   fun hv hh => by
+     have := h.hv hv hh
+     simp only [hf] at this
+     show HvSh t n HState.init hv
+     exact this.monoNV (Nat.le_refl _) hn (by decide) (by decide)⟩
+
+/-- **ParseHeaders is position independent**: from a legitimate pair the call on `pre ++ t` at `pre.size + offs`
+    with the moved header list and values returns the offset moved by `pre.size`, the same verdict, the moved header
+    list (every stored header, the first-of-type table, counts and type flags) and the moved values (exactly after a
+    non-error verdict; up to the stale restart offset of the name-addr value in progress after an error). After
+    MoreBytes the header in progress and the values satisfy `HlSh` at the returned offset. -/
+theorem parseHeaders_shift (pre t : Buf) (offs : Nat) (hl : HdrLst) (hb : Option PHdrVals)
+    (hfit : pre.size + t.size ≤ 65535) (hA : HlsAll t offs hl hb) :
+    ∃ hb'', parseHeaders (pre ++ t) (pre.size + offs) (shHls pre.size hl) (hb.map (shHv pre.size)) =
+        (pre.size + (parseHeaders t offs hl hb).1, (parseHeaders t offs hl hb).2.1,
+          shHls pre.size (parseHeaders t offs hl hb).2.2.1, hb'') ∧
+      smRelHb pre.size (parseHeaders t offs hl hb).2.1 hb'' (parseHeaders t offs hl hb).2.2.2 ∧
+      ((parseHeaders t offs hl hb).2.1 = .moreBytes →
+        HlSh t (parseHeaders t offs hl hb).1 ((parseHeaders t offs hl hb).2.2.1.cur, (parseHeaders t offs hl hb).2.2.2)) := by
+  induction hk : t.size - offs using Nat.strongRecOn generalizing offs hl hb with
+  | _ k ih =>
+    obtain ⟨hok1, hok2, hpe, ho, H, hX⟩ := hA
+    rw [parseHeaders.eq_1 t offs hl hb, parseHeaders.eq_1 (pre ++ t) (pre.size + offs)]
+    by_cases hlt : offs < t.size
+    · rw [if_pos hlt, if_pos (by rw [Array.size_append]; omega)]
+      have hI : hlOK t offs hl.cur hb := ⟨by omega, hlsOK_cur hok1, hok2⟩
+      rcases hp1 : parseHdrLine t offs hl.cur hb with ⟨n1, e1, g1, v1⟩
+      obtain ⟨hO, hS, hF, hN, hE⟩ := parseHdrLine_safe t offs hl.cur hb (by omega) H.cur hI hp1
+      obtain ⟨g2, v2, a1, a2, a3⟩ := parseHdrLine_shift pre t offs hl.cur hb hfit ⟨H.cur, hI, hX⟩ hp1
+      rw [shHls_cur, a1]
+      obtain ⟨b1, b2⟩ := smRelHL_split a2
+      simp only at b1 b2
+      subst b1
+      cases e1 <;> simp only
+      case ok =>
+        have hpost := parseHdrLine_post t offs hl.cur hb hI hp1 (Or.inl rfl)
+        have hg : offs < n1 := parseHdrLine_ok_gt t offs hl.cur hb hI hpe.1 hp1
+        rw [if_pos hg, if_pos (by omega)]
+        have hv2 : v2 = v1.map (shHv pre.size) := b2.2 (Or.inl rfl)
+        subst hv2
+        rw [← shHls_setCur, ← shHls_accept]
+        have hX1 := a3 (Or.inl rfl)
+        have hcur := flo_next_cur hl g1 H.clean
+        exact ih (t.size - n1) (by omega) n1 _ v1
+          ⟨hlsOK_next g1 hok1, hpost.2, hlsPend_next g1 v1 hpe, hpost.1,
+            H.next g1 (hS (Or.inl rfl)) (hF rfl) (by omega), by rw [hcur]; exact HlSh_newLine hX1 (hF rfl) hN⟩ rfl
+      case empty =>
+        have hv2 : v2 = v1.map (shHv pre.size) := b2.2 (Or.inr (Or.inr rfl))
+        subst hv2
+        rw [← shHls_setCur]
+        by_cases hn0 : hl.n > 0
+        · rw [if_pos hn0, if_pos (show (shHls pre.size hl).n > 0 from hn0)]
+          exact ⟨_, rfl, ⟨rfl, fun _ => rfl⟩, fun hh => by cases hh⟩
+        · rw [if_neg hn0, if_neg (show ¬ (shHls pre.size hl).n > 0 from hn0)]
+          exact ⟨_, rfl, ⟨rfl, fun _ => rfl⟩, fun hh => by cases hh⟩
+      case moreBytes =>
+        have hv2 : v2 = v1.map (shHv pre.size) := b2.2 (Or.inr (Or.inl rfl))
+        subst hv2
+        rw [← shHls_setCur]
+        refine ⟨_, rfl, ⟨rfl, fun _ => rfl⟩, fun _ => ?_⟩
+        show HlSh t n1 ((hl.setCur g1).cur, v1)
+        rw [hlSetCur_cur]
+        exact a3 (Or.inr rfl)
+      all_goals
+        (rw [← shHls_setCur]
+         exact ⟨v2, rfl, ⟨b2.1, fun hh => by rcases hh with hh | hh | hh <;> cases hh⟩, fun hh => by cases hh⟩)
+    · rw [if_neg hlt, if_neg (by rw [Array.size_append]; omega)]
+      exact ⟨_, rfl, ⟨rfl, fun _ => rfl⟩, fun _ => hX⟩
+
+/-! ### (4) the first line as part of a message -/
+
+/-- states of the request path before the line is complete -/
+def smReqSt (s : FLState) : Prop := s = .reqMethod ∨ s = .reqURI ∨ s = .reqVer ∨ s = .crlf
+
+/-- **the first-line object moved by `k`**: the request-line fields (`shReq`) or the status-line fields (`shRpl`),
+    according to the state; in the final state a status line is recognised by its status-code field (3 bytes; a
+    request line leaves that field at its zero value) -/
+def shFl (k : Nat) (pl : PFLine) : PFLine :=
+  match pl.state with
+  | .init => pl
+  | .rplStatus => shRpl k pl
+  | .rplReason => shRpl k pl
+  | .fin => if pl.statusCode.len = 0 then shReq k pl else shRpl k pl
+  | _ => shReq k pl
+
+theorem shFl_new (k : Nat) : shFl k {} = {} := rfl
+
+/-- result of the request path: finished with OK, or still in a request state; the status-code field is untouched -/
+def smReqRes (pl : PFLine) (r : Nat × Err × PFLine) : Prop :=
+  r.2.2.statusCode = pl.statusCode ∧ ((r.2.1 = .ok ∧ r.2.2.state = .fin) ∨ (r.2.1 ≠ .ok ∧ smReqSt r.2.2.state))
+
+theorem smFlCRLF_res (b : Buf) (i : Nat) (pl : PFLine) (hst : pl.state = .crlf) : smReqRes pl (flCRLF b i pl) := by
+  unfold flCRLF
+  rcases hs : skipCRLF b i with ⟨n, crl, e⟩
+  cases e <;> simp only
+  case ok => exact ⟨rfl, Or.inl ⟨rfl, rfl⟩⟩
+  all_goals exact ⟨rfl, Or.inr ⟨(by intro hh; cases hh), Or.inr (Or.inr (Or.inr hst))⟩⟩
+
+theorem smFlReqVer_res (b : Buf) (i : Nat) (pl : PFLine) (hst : pl.state = .reqVer) : smReqRes pl (flReqVer b i pl) := by
+  unfold flReqVer
+  simp only
+  split
+  · exact ⟨rfl, Or.inr ⟨(by intro hh; cases hh), Or.inr (Or.inr (Or.inl hst))⟩⟩
+  · split
+    · exact ⟨rfl, Or.inr ⟨(by intro hh; cases hh), Or.inr (Or.inr (Or.inl hst))⟩⟩
+    · split
+      · exact ⟨rfl, Or.inr ⟨(by intro hh; cases hh), Or.inr (Or.inr (Or.inl hst))⟩⟩
+      · exact smFlCRLF_res b _ _ rfl
+
+theorem smFlReqURI_res (b : Buf) (i : Nat) (pl : PFLine) (hst : pl.state = .reqURI) : smReqRes pl (flReqURI b i pl) := by
+  unfold flReqURI
+  simp only
+  split
+  · exact ⟨rfl, Or.inr ⟨(by intro hh; cases hh), Or.inr (Or.inl hst)⟩⟩
+  · split
+    · exact ⟨rfl, Or.inr ⟨(by intro hh; cases hh), Or.inr (Or.inl hst)⟩⟩
+    · split
+      · exact ⟨rfl, Or.inr ⟨(by intro hh; cases hh), Or.inr (Or.inl hst)⟩⟩
+      · exact smFlReqVer_res b _ _ rfl
+
+theorem smFlReqMethod_res (b : Buf) (i : Nat) (pl : PFLine) (hst : pl.state = .reqMethod) :
+    smReqRes pl (flReqMethod b i pl) := by
+  unfold flReqMethod
+  simp only
+  split
+  · exact ⟨rfl, Or.inr ⟨(by intro hh; cases hh), Or.inl hst⟩⟩
+  · split
+    · exact ⟨rfl, Or.inr ⟨(by intro hh; cases hh), Or.inl hst⟩⟩
+    · split
+      · exact ⟨rfl, Or.inr ⟨(by intro hh; cases hh), Or.inl hst⟩⟩
+      · split
+        · exact ⟨rfl, Or.inr ⟨(by intro hh; cases hh), Or.inl hst⟩⟩
+        · exact smFlReqURI_res b _ _ rfl
+
+theorem smReq_eq_fl (k : Nat) (pl : PFLine) (r : Nat × Err × PFLine) (h0 : pl.statusCode.len = 0) (h : smReqRes pl r) :
+    shReq k r.2.2 = shFl k r.2.2 := by
+  obtain ⟨h1, h2⟩ := h
+  unfold shFl
+  rcases h2 with ⟨_, h2⟩ | ⟨_, h2 | h2 | h2 | h2⟩ <;> rw [h2] <;> simp only
+  rw [h1, h0]; rfl
+
+/-- result of the status-line path -/
+def smRplRes (r : Nat × Err × PFLine) : Prop :=
+  (r.2.1 = .ok ∧ r.2.2.state = .fin ∧ r.2.2.statusCode.len ≠ 0) ∨
+    (r.2.1 ≠ .ok ∧ ((r.2.2.state = .rplStatus ∧ r.2.1 = .badChar) ∨ (r.2.2.state = .rplReason ∧ r.2.2.statusCode.len ≠ 0)))
+
+theorem smFlRplReason_res (b : Buf) (i : Nat) (pl : PFLine) (hst : pl.state = .rplReason) (h0 : pl.statusCode.len ≠ 0) :
+    smRplRes (flRplReason b i pl) := by
+  unfold flRplReason
+  rcases hs : skipLine b i with ⟨e, crl, err⟩
+  cases err <;> simp only
+  case ok => exact Or.inl ⟨rfl, rfl, h0⟩
+  all_goals exact Or.inr ⟨(by intro hh; cases hh), Or.inr ⟨hst, h0⟩⟩
+
+theorem smFlReply_res (b : Buf) (i0 : Nat) (pl : PFLine) (_hlt : i0 + 8 + 3 < 65536) : smRplRes (flReply b i0 8 pl) := by
+  unfold flReply
+  simp only
+  split
+  · split
+    · exact Or.inr ⟨(by intro hh; cases hh), Or.inl ⟨rfl, rfl⟩⟩
+    · refine smFlRplReason_res b _ _ rfl ?_
+      show (PField.set (i0 + 8) (i0 + 8 + 3)).len ≠ 0
+      unfold PField.set trunc16
+      simp only
+      omega
+  · exact Or.inr ⟨(by intro hh; cases hh), Or.inl ⟨rfl, rfl⟩⟩
+
+theorem smRpl_eq_fl (k : Nat) (r : Nat × Err × PFLine) (h : smRplRes r) : shRpl k r.2.2 = shFl k r.2.2 := by
+  unfold shFl
+  rcases h with ⟨_, h2, h3⟩ | ⟨_, ⟨h2, _⟩ | ⟨h2, _⟩⟩ <;> rw [h2] <;> simp only
+  rw [if_neg h3]
+
+/-! ### (4) the message object -/
+
+/-- the body field: set (and moved) once the body section has been reached -/
+def shMb (k : Nat) (st : MsgState) (f : PField) : PField :=
+  match st with
+  | .body | .fin | .noCLen => shF k f
+  | _ => f
+
+/-- `len(msg.Buf)` and the start of `RawMsg`: set (and moved) when the message is complete -/
+def shMl (k : Nat) (st : MsgState) (x : Nat) : Nat :=
+  match st with
+  | .fin | .noCLen => x + k
+  | _ => x
+
+/-- the start offset of the message: set (and moved) by the first call -/
+def shMo (k : Nat) (st : MsgState) (x : Nat) : Nat :=
+  match st with
+  | .init => x
+  | _ => x + k
+
+/-- **the message object moved by `k`**: first line (`shFl`), header list (`shHls`), header values (`shHv`), body, the
+    start offset of the message, and — once the message is complete — the length of `Buf` and the start of `RawMsg`
+    (`Buf = buf[0 : bufLen]`, `RawMsg = Buf[rawOffs : rawOffs + rawLen]`: `bufLen` and `rawOffs` grow by `k`, the length
+    `rawLen` does not change); state and panic flag unchanged -/
+def shMsg (k : Nat) (m : PSIPMsg) : PSIPMsg :=
+  { m with fl := shFl k m.fl, pv := shHv k m.pv, hl := shHls k m.hl, body := shMb k m.state m.body,
+           bufLen := shMl k m.state m.bufLen, rawOffs := shMl k m.state m.rawOffs, offs := shMo k m.state m.offs }
+
+theorem shMsg_init (k : Nat) (m : PSIPMsg) (len : Nat) (kh kc : Nat) (hdrs cts : Option Unit) :
+    shMsg k (m.init len (hdrs.map fun _ => Array.replicate kh {}) (cts.map fun _ => Array.replicate kc {})) =
+      m.init len (hdrs.map fun _ => Array.replicate kh {}) (cts.map fun _ => Array.replicate kc {}) := by
+  have key : ∀ a c : Nat, shMsg k (initObj len a c) = initObj len a c := by
+    intro a c
+    unfold shMsg initObj
+    simp only [shHv_new, shHls_new, shFl_new]
+    rfl
+  cases hdrs <;> cases cts
+  · exact key 10 10
+  · exact key 10 kc
+  · exact key kh 10
+  · exact key kh kc
+
+/-- the returned message is the moved message: exactly unless the call ended in the error state, where the header
+    values agree up to the stale restart offset of the name-addr value that was being parsed -/
+def smRelM (k : Nat) (x y : PSIPMsg) : Prop :=
+  ({ x with pv := smHvObs x.pv } : PSIPMsg) = { shMsg k y with pv := smHvObs (shHv k y.pv) } ∧
+    (y.state ≠ .err → x = shMsg k y)
+
+theorem smRelM_refl (k : Nat) (y : PSIPMsg) : smRelM k (shMsg k y) y := ⟨rfl, fun _ => rfl⟩
+
+/-- the result `r'` is the result `r` moved by `k` -/
+def smResM (k : Nat) (r' r : Nat × Err × PSIPMsg) : Prop := r'.1 = k + r.1 ∧ r'.2.1 = r.2.1 ∧ smRelM k r'.2.2 r.2.2
+
+theorem smResM_of_eq {k : Nat} {r' r : Nat × Err × PSIPMsg} (h : r' = shRes k (shMsg k) r) : smResM k r' r := by
+  subst h; exact ⟨rfl, rfl, smRelM_refl k _⟩
+
+theorem PSIPMsg.smExt {a b : PSIPMsg} (h1 : a.fl = b.fl) (h2 : a.pv = b.pv) (h3 : a.hl = b.hl) (h4 : a.body = b.body)
+    (h5 : a.bufLen = b.bufLen) (h6 : a.rawOffs = b.rawOffs) (h7 : a.rawLen = b.rawLen) (h8 : a.state = b.state)
+    (h9 : a.offs = b.offs) (h10 : a.pnc = b.pnc) : a = b := by
+  cases a; cases b; simp_all
+
+/-! #### the body section -/
+
+theorem smSetBufs (pre t : Buf) (X m : PSIPMsg) (o : Nat) (S : MsgState) (hS : S = .fin ∨ S = .noCLen)
+    (h1 : X.fl = shFl pre.size m.fl) (h2 : X.pv = shHv pre.size m.pv) (h3 : X.hl = shHls pre.size m.hl)
+    (h4 : X.body = shF pre.size m.body) (h5 : X.offs = m.offs + pre.size) (h6 : X.pnc = m.pnc) :
+    ({ X.setBufs (pre ++ t) (pre.size + o) with state := S } : PSIPMsg) =
+      shMsg pre.size { m.setBufs t o with state := S } := by
+  have hp1 : decide (pre.size + o > (pre ++ t).size) = decide (o > t.size) := by
+    rw [Array.size_append]; exact decide_eq_decide.mpr ⟨fun h => by omega, fun h => by omega⟩
+  have hp2 : decide (m.offs + pre.size > pre.size + o) = decide (m.offs > o) :=
+    decide_eq_decide.mpr ⟨fun h => by omega, fun h => by omega⟩
+  apply PSIPMsg.smExt
+  · exact h1
+  · exact h2
+  · exact h3
+  · show X.body = shMb pre.size S m.body
+    rw [h4]; rcases hS with rfl | rfl <;> rfl
+  · show pre.size + o = shMl pre.size S o
+    rcases hS with rfl | rfl <;> (show _ = o + pre.size; omega)
+  · show X.offs = shMl pre.size S m.offs
+    rw [h5]; rcases hS with rfl | rfl <;> rfl
+  · show pre.size + o - X.offs = o - m.offs
+    rw [h5]; omega
+  · rfl
+  · show X.offs = shMo pre.size S m.offs
+    rw [h5]; rcases hS with rfl | rfl <;> rfl
+  · show (X.pnc || decide (pre.size + o > (pre ++ t).size) || decide (X.offs > pre.size + o)) = _
+    rw [h5, h6, hp1, hp2]; rfl
+
+theorem smMsgEnd (pre t : Buf) (X m : PSIPMsg) (o' : Nat)
+    (h1 : X.fl = shFl pre.size m.fl) (h2 : X.pv = shHv pre.size m.pv) (h3 : X.hl = shHls pre.size m.hl)
+    (h4 : X.body = shF pre.size m.body) (h5 : X.offs = m.offs + pre.size) (h6 : X.pnc = m.pnc)
+    (hbo : m.body.offs ≤ o') (ho' : o' ≤ t.size) (hfit : pre.size + t.size ≤ 65535) :
+    msgEnd X (pre ++ t) (pre.size + o') = shRes pre.size (shMsg pre.size) (msgEnd m t o') := by
+  unfold msgEnd shRes
+  simp only
+  refine Prod.ext rfl (Prod.ext rfl ?_)
+  exact smSetBufs pre t _ { m with body := m.body.extend o', pnc := m.pnc || m.body.extendPanics o' } o' .fin (Or.inl rfl)
+    h1 h2 h3 (by show X.body.extend _ = _; rw [h4, extend_shift pre.size m.body o' (by omega) hbo]) h5
+    (by show (X.pnc || X.body.extendPanics _) = _; rw [h4, h6, extendPanics_shift])
+
+theorem msgBody_body_irrel (b : Buf) (o : Nat) (m : PSIPMsg) (f : PField) (flags : Nat) :
+    msgBody b o { m with body := f } flags = msgBody b o m flags := by
+  unfold msgBody; rfl
+
+/-- **the body section is position independent** -/
+theorem smMsgBody (pre t : Buf) (o : Nat) (m : PSIPMsg) (flags : Nat) (hst : m.state = .body) (ho : o ≤ t.size)
+    (hfit : pre.size + t.size ≤ 65535) :
+    msgBody (pre ++ t) (pre.size + o) (shMsg pre.size m) flags = shRes pre.size (shMsg pre.size) (msgBody t o m flags) := by
+  have hset : (PField.set o o).offs = o := flo_set_offs o o (by omega)
+  have hb1 : PField.set (pre.size + o) (pre.size + o) = shF pre.size (PField.set o o) := set_shift pre.size o o (by omega)
+  have ho5 : (shMsg pre.size m).offs = m.offs + pre.size := by
+    show shMo pre.size m.state m.offs = _; rw [hst]; rfl
+  have hp : (shMsg pre.size m).pv.clen.parsed = m.pv.clen.parsed := smCl_parsed _ _
+  have hu : (shMsg pre.size m).pv.clen.uiVal = m.pv.clen.uiVal := shCl_uiVal _ _
+  have hsz : (pre ++ t).size = pre.size + t.size := Array.size_append ..
+  have hend : ∀ (S : MsgState) (o' : Nat), o ≤ o' → o' ≤ t.size →
+      msgEnd { shMsg pre.size m with body := PField.set (pre.size + o) (pre.size + o), state := S } (pre ++ t) (pre.size + o') =
+        shRes pre.size (shMsg pre.size) (msgEnd { m with body := PField.set o o, state := S } t o') := by
+    intro S o' a1 a2
+    exact smMsgEnd pre t _ _ o' rfl rfl rfl hb1 ho5 rfl (by show (PField.set o o).offs ≤ o'; omega) a2 hfit
+  have hend' : ∀ (o' : Nat), o ≤ o' → o' ≤ t.size →
+      msgEnd { shMsg pre.size m with body := PField.set (pre.size + o) (pre.size + o) } (pre ++ t) (pre.size + o') =
+        shRes pre.size (shMsg pre.size) (msgEnd { m with body := PField.set o o } t o') := by
+    intro o' a1 a2
+    exact smMsgEnd pre t _ _ o' rfl rfl rfl hb1 ho5 rfl (by show (PField.set o o).offs ≤ o'; omega) a2 hfit
+  have hmore : ({ shMsg pre.size m with body := PField.set (pre.size + o) (pre.size + o) } : PSIPMsg) =
+      shMsg pre.size { m with body := PField.set o o } := by
+    unfold shMsg; simp only [hst, shMb, hb1]
+  unfold msgBody
+  simp only [hp, hu, hsz]
+  by_cases f1 : hasFlag flags SIPMsgSkipBodyF = true
+  · simp only [f1, ↓reduceIte]
+    by_cases f2 : (hasFlag flags SIPMsgCLenReqF && !m.pv.clen.parsed) = true
+    · simp only [f2, ↓reduceIte, shRes]
+      refine Prod.ext rfl (Prod.ext rfl ?_)
+      exact smSetBufs pre t _ { m with body := PField.set o o } o .noCLen (Or.inr rfl) rfl rfl rfl hb1 ho5 rfl
+    · simp only [f2, Bool.false_eq_true, ↓reduceIte]
+      exact hend .fin o (Nat.le_refl _) ho
+  · simp only [f1, Bool.false_eq_true, ↓reduceIte]
+    by_cases f3 : m.pv.clen.parsed = true
+    · simp only [f3, ↓reduceIte]
+      have hgt : (pre.size + o + m.pv.clen.uiVal > pre.size + t.size) = (o + m.pv.clen.uiVal > t.size) := by
+        apply propext; constructor <;> intro h <;> omega
+      simp only [hgt]
+      by_cases f4 : o + m.pv.clen.uiVal > t.size
+      · simp only [f4, ↓reduceIte]
+        by_cases f5 : hasFlag flags SIPMsgNoMoreDataF = true
+        · simp only [f5, ↓reduceIte]
+          exact hend' t.size ho (Nat.le_refl _)
+        · simp only [f5, Bool.false_eq_true, ↓reduceIte, shRes]
+          exact Prod.ext rfl (Prod.ext rfl hmore)
+      · simp only [f4, ↓reduceIte]
+        rw [Nat.add_assoc]
+        exact hend' (o + m.pv.clen.uiVal) (by omega) (by omega)
+    · simp only [f3, Bool.false_eq_true, ↓reduceIte]
+      by_cases f6 : hasFlag flags SIPMsgCLenReqF = true
+      · simp only [f6, ↓reduceIte]
+        exact hend' o (Nat.le_refl _) ho
+      · simp only [f6, Bool.false_eq_true, ↓reduceIte]
+        exact hend' t.size ho (Nat.le_refl _)
+
+/-! #### the first line -/
+
+/-- **a legitimate first-line object** for the shift theorem: new, or suspended on the request path (status-code
+    field untouched) or in the reason phrase of a status line (status-code field set) -/
+def FlSh (pl : PFLine) : Prop :=
+  pl = {} ∨ (smReqSt pl.state ∧ pl.statusCode.len = 0) ∨ (pl.state = .rplReason ∧ pl.statusCode.len ≠ 0)
+
+theorem FlSh_of_req {pl : PFLine} {r : Nat × Err × PFLine} (h0 : pl.statusCode.len = 0) (h : smReqRes pl r)
+    (hm : r.2.1 = .moreBytes) : FlSh r.2.2 := by
+  obtain ⟨h1, h2⟩ := h
+  rcases h2 with ⟨h2, _⟩ | ⟨_, h2⟩
+  · rw [hm] at h2; cases h2
+  · exact Or.inr (Or.inl ⟨h2, by rw [h1]; exact h0⟩)
+
+/-- ParseFLine on the request path -/
+theorem smParseFLine_reqRes (b : Buf) (o : Nat) (pl : PFLine) (hst : smReqSt pl.state) : smReqRes pl (parseFLine b o pl) := by
+  unfold parseFLine
+  rcases hst with h | h | h | h <;> simp only [h]
+  · exact smFlReqMethod_res b o pl h
+  · exact smFlReqURI_res b o pl h
+  · exact smFlReqVer_res b o pl h
+  · exact smFlCRLF_res b o pl h
+
+/-- **ParseFLine is position independent** for every legitimate first-line object, with the single translation
+    `shFl`; after MoreBytes the returned object is legitimate again -/
+theorem smParseFLine (pre t : Buf) (o : Nat) (pl : PFLine) (hfit : pre.size + t.size ≤ 65535) (hL : FlSh pl)
+    (hS : FlSafe t o pl) :
+    parseFLine (pre ++ t) (pre.size + o) (shFl pre.size pl) = shRes pre.size (shFl pre.size) (parseFLine t o pl) ∧
+      ((parseFLine t o pl).2.1 = .moreBytes → FlSh (parseFLine t o pl).2.2) := by
+  rcases hL with rfl | ⟨hst, h0⟩ | ⟨hst, h0⟩
+  · rw [shFl_new, parseFLine_shift_new pre t o hS.ho hfit]
+    have key : (if (bcPrefix sipVerSP (t.extract o (o + 8)).toList).2 then shRpl pre.size else shReq pre.size)
+          (parseFLine t o {}).2.2 = shFl pre.size (parseFLine t o {}).2.2 ∧
+        ((parseFLine t o {}).2.1 = .moreBytes → FlSh (parseFLine t o {}).2.2) := by
+      unfold parseFLine
+      simp only
+      by_cases hlen : t.size - o < 14
+      · simp only [hlen, ↓reduceIte]
+        exact ⟨by split <;> rfl, fun _ => Or.inl rfl⟩
+      · simp only [hlen, ↓reduceIte]
+        rcases hp : bcPrefix sipVerSP (t.extract o (o + 8)).toList with ⟨l, ok⟩
+        cases ok <;> simp only
+        · have hr := smFlReqMethod_res t o { ({} : PFLine) with state := .reqMethod, method := PField.set o o } rfl
+          simp only [Bool.false_eq_true, ↓reduceIte]
+          exact ⟨smReq_eq_fl pre.size _ _ rfl hr, FlSh_of_req rfl hr⟩
+        · have hl8 : l = 8 := by
+            have hsz8 : (t.extract o (o + 8)).toList.length = 8 := by simp; omega
+            unfold bcPrefix at hp
+            have hle : sipVerSP.length ≤ (t.extract o (o + 8)).toList.length := by rw [hsz8]; decide
+            rw [if_neg (by omega)] at hp
+            have := prefixAux_true sipVerSP _ 0 l hle hp
+            simpa [sipVerSP] using this
+          subst hl8
+          simp only [↓reduceIte]
+          have hr := smFlReply_res t o {} (by have := hS.ho; omega)
+          refine ⟨smRpl_eq_fl pre.size _ hr, fun hm => ?_⟩
+          rcases hr with ⟨h1, _⟩ | ⟨_, ⟨_, h2⟩ | h2⟩
+          · rw [hm] at h1; cases h1
+          · rw [hm] at h2; cases h2
+          · exact Or.inr (Or.inr h2)
+    refine ⟨?_, key.2⟩
+    unfold shRes
+    rw [key.1]
+  · have hq : pl.state = .reqMethod ∨ pl.state = .reqURI ∨ pl.state = .reqVer ∨ pl.state = .crlf := hst
+    have e0 : shFl pre.size pl = shReq pre.size pl := by
+      unfold shFl; rcases hq with h | h | h | h <;> rw [h]
+    have hr := smParseFLine_reqRes t o pl hst
+    rw [e0, parseFLine_shift_req pre t o pl hq hS hfit]
+    refine ⟨?_, FlSh_of_req h0 hr⟩
+    unfold shRes
+    rw [smReq_eq_fl pre.size pl _ h0 hr]
+  · have e0 : shFl pre.size pl = shRpl pre.size pl := by unfold shFl; rw [hst]
+    have hr : smRplRes (parseFLine t o pl) := by
+      unfold parseFLine; simp only [hst]; exact smFlRplReason_res t o pl hst h0
+    rw [e0, parseFLine_shift_rpl pre t o pl hst hS hfit]
+    refine ⟨?_, fun hm => ?_⟩
+    · unfold shRes
+      rw [smRpl_eq_fl pre.size _ hr]
+    · rcases hr with ⟨h1, _⟩ | ⟨_, ⟨_, h2⟩ | h2⟩
+      · rw [hm] at h1; cases h1
+      · rw [hm] at h2; cases h2
+      · exact Or.inr (Or.inr h2)
+
 end Sipsp
